@@ -1,20 +1,25 @@
 #!/bin/sh
-# usage: selftest/try_mutant.sh <patch.diff> <Cxx> [<Cyy> ...]   -- applies the patch to /repo, runs the quick checks, reverts
+# usage: selftest/try_mutant.sh <patch.diff> <Cxx> [<Cyy> ...]
+# applies the patch to a scratch worktree of /repo (outside /repo and /verif), runs the quick checks against it
+# (VERIF_REPO), removes the worktree.  /repo itself is never touched, so several mutants can run in parallel.
 set -u
 P="$1"; shift
-cd /repo || exit 2
-if ! git diff --quiet; then echo "repo not clean"; exit 2; fi
-if ! git apply --check "$P" 2>/dev/null; then
-  if ! git apply --3way --check "$P" 2>/dev/null; then echo "PATCH-DOES-NOT-APPLY $P"; exit 2; fi
+TAG=$(echo "$P" | tr '/.' '__')
+W=/tmp/mw_$TAG
+O=/tmp/mo_$TAG
+rm -rf "$W" "$O"; mkdir -p "$O"
+git -C /repo worktree add -q --detach "$W" HEAD || exit 2
+cd "$W"
+if ! git apply "$P" 2>/dev/null; then
+  if ! git apply --3way "$P" 2>/dev/null; then echo "PATCH-DOES-NOT-APPLY $P"; cd /; git -C /repo worktree remove --force "$W"; exit 2; fi
 fi
-git apply "$P" || { echo "apply failed"; exit 2; }
 cd /verif
 for c in "$@"; do
-  out=$(./bin/vcheck "$c" --tier quick 2>&1)
+  out=$(VERIF_REPO="$W" VERIF_OUT="$O" VERIF_JOBS=${VERIF_JOBS:-8} ./bin/vcheck "$c" --tier quick 2>&1)
   code=$?
   nv=$(echo "$out" | grep -c "^VIOLATION")
-  echo "MUTANT $(basename $(dirname $P))/$(basename $P) check=$c exit=$code violations=$nv"
+  echo "MUTANT $P check=$c exit=$code violations=$nv"
   echo "$out" | grep -A1 "^VIOLATION" | head -4
   echo "$out" | grep "HARNESS-ERROR" | head -2
 done
-cd /repo && git checkout -- . && git status --short | head -3
+git -C /repo worktree remove --force "$W"; rm -rf "$O"
